@@ -103,6 +103,14 @@ MUTANTS = [
     ("c11_universe_order_from_set", ["C11"], "bt/core.py", "            valid_filter = [c for c in universe.columns if c in tickers]", "            valid_filter = list(tickers.intersection(universe.columns))"),
     ("c11_children_not_copied", ["C11"], "bt/core.py", "                if dc:  # deepcopy object for possible later reuse\n                    c = deepcopy(c)", "                if dc and isinstance(c, str):  # deepcopy object for possible later reuse\n                    c = deepcopy(c)"),
     ("c11_additional_data_shared", ["C11"], "bt/backtest.py", "                new = pd.concat([empty_row, old])\n                self.additional_data[k] = new\n            elif", "                old.iloc[0, 0] = old.iloc[0, 0]\n                old.iloc[-1, -1] = 0.123 if old.dtypes.iloc[-1] == float else old.iloc[-1, -1]\n                new = pd.concat([empty_row, old])\n                self.additional_data[k] = new\n            elif"),
+    # ---- C19
+    ("c19_lazy_child_skips_integer_flag", ["C19"], "bt/core.py", "                    c._set_root(self.root)\n                    c.use_integer_positions(self.integer_positions)", "                    c._set_root(self.root)\n                    if not getattr(self, \"_setup_kwargs\", None) is not None:\n                        c.use_integer_positions(self.integer_positions)"),
+    ("c19_commissions_one_level", ["C19", "C07"], "bt/core.py", "            if isinstance(c, StrategyBase):\n                c.set_commissions(fn)", "            if isinstance(c, StrategyBase):\n                c.commission_fn = fn"),
+    ("c19_set_root_not_recursive", ["C19"], "bt/core.py", "        self.root = root\n        for c in self._childrenv:\n            c._set_root(root)", "        self.root = root"),
+    ("c19_dict_rename_ignored", ["C19"], "bt/core.py", "                        c.name = name\n                        tmp.append(c)", "                        tmp.append(c)"),
+    ("c19_universe_includes_undeclared_strats_tickers", ["C19"], "bt/core.py", "        if self._original_children_are_present:\n            # if we have universe_tickers defined", "        if self._original_children_are_present and not self._has_strat_children:\n            # if we have universe_tickers defined"),
+    ("c19_duplicate_eager_overwrites", ["C19"], "bt/core.py", "                    if c.name in self.children:\n                        raise ValueError(\"Child %s already exists\" % c)\n", "                    if False:\n                        raise ValueError(\"Child %s already exists\" % c)\n"),
+    ("c19_full_name_skips_level", ["C19"], "bt/core.py", "            return \"%s>%s\" % (self.parent.full_name, self.name)", "            return \"%s>%s\" % (self.parent.full_name if self.parent.parent is self.parent else self.parent.parent.full_name, self.name)"),
     # ---- C08
     ("c08_fee_reset_every_update", ["C08", "C07"], "bt/core.py", "        # update now\n        self.now = date\n        if inow is None:\n            if self.now == 0:\n                inow = 0\n            else:\n                inow = self.data.index.get_loc(date)\n\n        # update children if any and calculate value", "        # update now\n        self.now = date\n        self._last_fee = 0.0\n        if inow is None:\n            if self.now == 0:\n                inow = 0\n            else:\n                inow = self.data.index.get_loc(date)\n\n        # update children if any and calculate value"),
     ("c08_outlay_row_accumulates", ["C08", "C07"], "bt/core.py", "            self._outlays.array[inow] += self._outlay\n            # reset outlay back to 0\n            self._outlay = 0\n", "            self._outlays.array[inow] += self._outlay\n"),
